@@ -29,7 +29,7 @@ META = {
     'quotas': {
         'quick': {'steps-checked': 50000, 'op:compromise': 5000, 'op:undo': 2000, 'op:remove_attacker': 1000,
                   'class:double-compromise': 500, 'class:undo-not-compromised': 500, 'class:remove-with-many-reached': 100,
-                  'class:remove-with-zero-reached': 50, 'attach-compared': 200, 'class:attach-overlapping-entry-points': 50,
+                  'class:remove-with-zero-reached': 50, 'attach-compared': 80, 'class:attach-overlapping-entry-points': 50,
                   'class:attach-unknown-step': 20, 'class:compromise-before-add': 100, 'exhaustive-histories': 10000},
         'thorough': {'steps-checked': 5000000, 'op:remove_attacker': 100000, 'attach-compared': 20000, 'exhaustive-histories': 400000},
     },
